@@ -1245,7 +1245,20 @@ impl<'a, 'd> Gen<'a, 'd> {
                     _ => self.container_read(t, fuel).unwrap_or_else(|| self.leaf(t)),
                 }
             }
-            Ty::Str => match self.d.below(4) {
+            Ty::Str => match self.d.below(5) {
+                4 => {
+                    // string_get(s, i): one ASCII character; fails when i is out of range
+                    let ascii: Vec<&str> = STRS.iter().copied().filter(|x| x.is_ascii() && !x.is_empty()).collect();
+                    let lit = ascii[self.d.below(ascii.len())];
+                    let idx = if self.cfg.fails && !self.gates.gated("index:maybe-oob") && self.d.chance(90) {
+                        self.label("index:maybe-oob");
+                        self.expr(&Ty::i32(), fuel - 1)
+                    } else {
+                        Expr::Int(IK::I32, self.d.below(lit.len()) as i128, false)
+                    };
+                    self.label("string_get");
+                    Expr::Call(Callee::Builtin(Builtin::StringGet), vec![Expr::Str(lit.to_string()), idx])
+                }
                 0 | 1 => {
                     let a = self.expr(&Ty::Str, fuel - 1);
                     let b = self.expr(&Ty::Str, fuel - 1);
@@ -1401,6 +1414,12 @@ impl<'a, 'd> Gen<'a, 'd> {
                         for (fi, (_, ft)) in fields.iter().enumerate() {
                             let ft = ft.subst(args);
                             fs.push((fi as u32, self.pattern_in(&ft, depth - 1, refutable)));
+                        }
+                        // fields are matched by name; the written order is free
+                        match self.d.below(3) {
+                            0 => fs.reverse(),
+                            1 if fs.len() > 1 => fs.rotate_left(1),
+                            _ => {}
                         }
                         Pat::Struct(*a, fs)
                     }
